@@ -7,7 +7,7 @@ THEOREMS = ['FlexVerif.match_conserves', 'FlexVerif.validate_sound', 'FlexVerif.
 
 def run(ctx):
     q1, q2, q3 = {'quick': (64, 48, 32), 'thorough': (600, 400, 200)}[ctx.tier]
-    plan = [('trail', q1, 8), ('lineno', q3, 4), ('wrapbol', q2, 6)]
+    plan = [('trail', q1, 8), ('lineno', q3, 4), ('wrapbol', q2, 6), ('inputbol', q3, 6)]
     return rtprop.run(ctx, THEOREMS, plan, 'exploration',
                       "anchors and trailing context: rule sets with ^, $, r/s (fixed and variable), yyatbol() logged after every match; rule sets for which flex prints 'dangerous trailing context' are skipped as the property allows" + '. Kernel-checked theorems about the abstract scanner (listed under obligations) + differential '
                       'correspondence of the real generated scanner (ASan/UBSan build) with that model on generated cases.')
